@@ -136,8 +136,14 @@ def checkLabels (enc : Bytes → Option Bytes) (f : Bytes) (K : Content) (textPo
 
 /-! The clauses of `Conforms`, one executable check each. -/
 
+/-- One pass over two byte lists: equal wherever the position (counted from `i`) is not covered. -/
+def agreeOff (K : Content) : Nat → Bytes → Bytes → Bool
+  | _, [], [] => true
+  | i, x :: xs, y :: ys => (decide (K.covered i) || x == y) && agreeOff K (i + 1) xs ys
+  | _, _, _ => false
+
 def chkData (f : Bytes) (K : Content) : Bool :=
-  (List.range K.data.length).all (fun i => decide (K.covered i) || f[0x20 + i]? == K.data[i]?)
+  agreeOff K 0 ((f.drop 0x20).take K.data.length) K.data
 
 def chkPtrTable (e : Endian) (f : Bytes) (K : Content) : Bool :=
   match wordsFrom e f (0x20 + K.data.length) K.cells.length with
